@@ -68,6 +68,9 @@ func GenGitLog(t *tape.Tape) string {
 	for i := 0; i < n; i++ {
 		rev := fmt.Sprintf("%07x", 0xabc000+i*37+t.Pick(16))
 		date := fmt.Sprintf("2019-%02d-%02d", 1+t.Pick(12), 1+t.Pick(27))
+		if t.Bool(1, 12) {
+			date = []string{"2999-01-01", "2031-03-09"}[t.Pick(2)] // an author date ahead of any clock (skewed machine)
+		}
 		msg := fmt.Sprintf("%s: change %d", kinds[t.Pick(len(kinds))], i)
 		if t.Bool(1, 3) {
 			msg = fmt.Sprintf("%s(core): change %d", kinds[t.Pick(len(kinds))], i)
@@ -197,4 +200,68 @@ func GenGoFile(t *tape.Tape) string {
 	}
 	b = append(b, "func Free(a string) {", "\tfmt.Println(a)", "}")
 	return strings.Join(b, "\n") + "\n"
+}
+
+// GitFileOp is one change of a commit in a real repository.
+type GitFileOp struct {
+	Kind string `json:"kind"` // write | delete | rename
+	Path string `json:"path"`
+	To   string `json:"to,omitempty"`
+	Size int    `json:"size,omitempty"` // lines written
+}
+
+type GitCommit struct {
+	Author string      `json:"author"`
+	Date   string      `json:"date"`
+	Msg    string      `json:"msg"`
+	Ops    []GitFileOp `json:"ops"`
+}
+
+// GitRepo is a real history to be built with the git binary (carrier for `coca git`).
+type GitRepo struct {
+	IgnoreCase bool        `json:"ignore_case"` // core.ignorecase, as on macOS / Windows clones
+	Commits    []GitCommit `json:"commits"`
+}
+
+func GenGitRepo(t *tape.Tape) *GitRepo {
+	r := &GitRepo{IgnoreCase: t.Bool(1, 3)}
+	authors := []string{"Ann Lee", "Bob", "Cy Young"}
+	paths := []string{"README.md", "Readme.md", "src/A.java", "src/B.java", "docs/guide.md", "cmd/main.go", "src/a.java"}
+	kinds := []string{"feat", "fix", "docs", "refactor"}
+	live := map[string]bool{}
+	n := t.Int(3, 6)
+	for i := 0; i < n; i++ {
+		c := GitCommit{Author: authors[t.Pick(len(authors))], Date: fmt.Sprintf("2020-%02d-%02dT10:00:00", 1+t.Pick(12), 1+t.Pick(27)), Msg: fmt.Sprintf("%s: step %d", kinds[t.Pick(len(kinds))], i)}
+		k := t.Int(1, 3)
+		for j := 0; j < k; j++ {
+			p := paths[t.Pick(len(paths))]
+			switch x := t.Pick(8); {
+			case x == 0 && live[p]:
+				c.Ops = append(c.Ops, GitFileOp{Kind: "delete", Path: p})
+				delete(live, p)
+			case x == 1 && live[p]:
+				to := "moved/" + strings.ReplaceAll(p, "/", "_")
+				if !live[to] {
+					c.Ops = append(c.Ops, GitFileOp{Kind: "rename", Path: p, To: to})
+					delete(live, p)
+					live[to] = true
+				}
+			default:
+				c.Ops = append(c.Ops, GitFileOp{Kind: "write", Path: p, Size: 1 + t.Pick(9) + i})
+				live[p] = true
+			}
+		}
+		if t.Bool(1, 3) {
+			// two paths that differ only in letter case, touched by one commit
+			pair := [][2]string{{"README.md", "Readme.md"}, {"src/A.java", "src/a.java"}}[t.Pick(2)]
+			c.Ops = append(c.Ops, GitFileOp{Kind: "write", Path: pair[0], Size: 3 + i}, GitFileOp{Kind: "write", Path: pair[1], Size: 4 + i})
+			live[pair[0]], live[pair[1]] = true, true
+		}
+		if len(c.Ops) == 0 {
+			c.Ops = append(c.Ops, GitFileOp{Kind: "write", Path: "src/A.java", Size: 2 + i})
+			live["src/A.java"] = true
+		}
+		r.Commits = append(r.Commits, c)
+	}
+	return r
 }
